@@ -366,12 +366,63 @@ impl Space for Sessions {
     }
 }
 
+/// Files with more than 0xff00 sections / 0xffff segments (extended numbering, right and wrong
+/// encodings of it) under the allocation counter.
+struct HugeCounts;
+impl Space for HugeCounts {
+    fn name(&self) -> String {
+        "files with 0xff20 sections and 0x10010 program headers x 7 header encodings (reference, escapes forced, shdr[0] zeroed / off by one / stale link) x 2 encodings: the whole slice API, 0 allocation calls".into()
+    }
+    fn size(&self) -> u64 {
+        7 * 2
+    }
+    fn chunk_hint(&self) -> u64 {
+        1
+    }
+    fn hang_secs(&self) -> u64 {
+        300
+    }
+    fn describe(&self, idx: u64) -> Value {
+        json!({"encoding": refmodel::layout::ENCS[if idx % 2 == 0 { 2 } else { 1 }].name(), "header_encoding_variant": idx / 2})
+    }
+    fn run(&self, idx: u64, out: &mut Outcome) {
+        use super::c05::*;
+        use refmodel::layout::*;
+        let enc = ENCS[if idx % 2 == 0 { 2 } else { 1 }];
+        let (nsec, nph, strndx) = (0xff20u64, 0x10010u64, 0xff1fu64);
+        let mut e = reference_encoding(nsec, nph, strndx);
+        match idx / 2 {
+            0 => {}
+            1 => e.sh0_link = 0,
+            2 => e.sh0_link = 1,
+            3 => {
+                e.sh0_size = 0;
+                e.sh0_info = 0;
+                e.sh0_link = 0;
+            }
+            4 => e.sh0_size = nsec - 1,
+            5 => e.sh0_info = nph + 1,
+            _ => e.e_shstrndx = 0xff1f,
+        }
+        let shs = layout(Kind::Shdr, enc.class).size as u64;
+        let phs = layout(Kind::Phdr, enc.class).size as u64;
+        let mut img = make(enc, nsec, nph, strndx, Placement::PhThenSh, &e, shs, phs);
+        // the last sections are string tables (candidates for a "recovered" name table)
+        for i in [nsec - 1, nsec - 2, nsec - 3] {
+            let off = (img.shoff + i * shs) as usize + 4;
+            put(&mut img.bytes, off, 4, enc.order, 3);
+        }
+        super::slice_oracles::slice_check(Mode::ZeroAlloc, enc.order, &img.bytes, out);
+    }
+}
+
 pub fn build(tier: Tier) -> CheckDef {
     let (mut spaces, bounds) = spaces_for(tier, Mode::ZeroAlloc, Also::ZeroAlloc, "C06 zero alloc");
     // long chains, large tables and link structures under the same zero-allocation demand
     super::c16_graphs::ZERO_ALLOC_MODE.store(true, std::sync::atomic::Ordering::Relaxed);
     spaces.extend(super::c16_graphs::spaces(tier));
     spaces.push(Box::new(Sessions { rounds: tier.pick(64, 512) }));
+    spaces.push(Box::new(HugeCounts));
     spaces.push(Box::new(FeatureMatrix));
     CheckDef {
         prop: "C06",
